@@ -96,8 +96,11 @@ C(f"{F}:Tokenizer.consume_with_macro_params", params=T, returns="Tok",
   requires_assumed={"not endmarker_pulled(self)": "flag protocol: the raw stream is not exhausted while _with_macro is set (C07/C14 flag obligations + stand-in)",
                     "len(self._stack) == 0": "flag protocol: a pushed-back token is popped by the next peek() before a macro start rule can set a flag again",
                     "gen_item(self, gen_pos(self)).type != Token.ENDMARKER": "C08: the logical line of the `with! ...:` header ends in a NEWLINE token before ENDMARKER"},
-  # the captured TEXT (lines dict, re.findall, dedent) is not modelled: only which tokens are consumed, where capture stops, flags, span
-  opaque=["lines", "text", "lineno", "line"],
+  # how the pieces of captured text are put together (lines dict, re.findall, dedent) is not modelled; WHAT is captured per token is:
+  # in the block form the token's whole source line(s) (so that dedent sees the block's own margin, also for comment lines before the first
+  # statement), in the one-line form the line from the token's start on
+  opaque=["lines", "lineno", "line"],
+  local_asserts={"text": "(is_indented and text == tok.line) or (not is_indented and text == tok.line[tok.start[1]:])"},
   loops={0: {"inv": [f"gen_pos(self) == {P0} + _i", "gen_pos(self) <= gen_len(self)", "indent >= 0", "self._with_macro", "self._stack == old(self._stack)",
                      "implies(opened, is_indented)", "implies(_i == 0, not is_indented and not opened and indent == 0)", "implies(is_indented and not opened, indent == 0)",
                      # block form before its INDENT: only comment / blank-line tokens have been passed since the NEWLINE after the colon
